@@ -209,12 +209,18 @@ PROPS["C10"] = {
     "anchors": ["core/internal/storage/inmemory.go", "core/internal/consumer/kafka_client.go", "core/internal/consumer/kafka_zk_client.go", "core/internal/notifier/coordinator.go"],
     "streams": [dict(_STORAGE_STREAM, keys={"list", "win", "own"}),
                 dict(_DECODE_STREAM, keys={"reqs"}),
-                dict(_NOTIFIER_STREAM, keys={"notes"})],
-    "rule": ("three streams, each with allow/deny regexp pairs (none, either, both, overlapping): " + _STORAGE_RULE + " | " + _DECODE_RULE + " | " + _NOTIFIER_RULE),
+                dict(_NOTIFIER_STREAM, keys={"notes"}),
+                {"name": "zkreader", "keys": None, "trivial": r"^(ok|fw=-)$", "hist_keys": [],
+                 "scale": {"quick": 1, "thorough": 8}, "seeds": {"quick": 1, "thorough": 2}}],
+    "rule": ("four streams, each with allow/deny regexp pairs (none, either, both, overlapping): " + _STORAGE_RULE + " | " + _DECODE_RULE + " | " + _NOTIFIER_RULE +
+             " | stream zkreader: the REAL Zookeeper offsets reader (KafkaZkClient through its real Configure and Start, every watch goroutine) on an in-memory Zookeeper tree with real watch "
+             "semantics (one-shot child/data/exists watches, all invalidated on session expiry); groups accepted and rejected by the lists, new groups/topics/partitions and new commits after Start, "
+             "offset nodes whose text is not a number, session expiry + reconnection; everything the module sends to storage after each op (offset and owner updates with order = the node's "
+             "modification id) is compared as a sorted multiset with the model. Non-trivial = an op after which something is forwarded."),
     "trusted": [
         "regexp matching is an oracle bit computed by the harness with Go's regexp on the same pattern and group name and handed to the model",
         "Burrow's own progress report (group burrow-<module>) is a synthetic commit, not a group read from the topic, and is out of scope (DESIGN 4.10)",
-        "the Zookeeper reader's single gate (resetGroupListWatchAndAdd) is covered by the extracted accept-site fact only; its watch dynamics are not modelled",
+        "the Zookeeper reader is modelled by what it forwards (Model/ZkReader.lean); its watch bookkeeping is exercised for real against the in-memory tree, partitions created densely; strconv.ParseInt is an oracle bit",
     ],
     "assumptions": PROPS["C01"]["assumptions"],
 }
